@@ -1139,13 +1139,13 @@ func (p *PubSub) handleDeadPeers() {
 		q.Close()
 		delete(p.peers, pid)
 
-		p.clearPeerFromTopicsState(pid)
 		p.rt.OnClosedOutboundStream(pid)
 
 		if p.host.Network().Connectedness(pid) == network.Connected {
 			backoffDelay, err := p.deadPeerBackoff.updateAndGet(pid)
 			if err != nil {
 				p.logger.Debug("error updating backoff", "err", err, "peer", pid)
+				p.clearPeerFromTopicsState(pid)
 				continue
 			}
 
@@ -1155,7 +1155,12 @@ func (p *PubSub) handleDeadPeers() {
 			rpcQueue := newRpcQueue(p.peerOutboundQueueSize)
 			p.peers[pid] = rpcQueue
 			go p.handleNewPeerWithBackoff(p.ctx, pid, backoffDelay, rpcQueue)
+			// What the peer announced came in over its own stream, and a peer that stays
+			// connected does not announce itself again because our stream to it is reopened.
+			continue
 		}
+
+		p.clearPeerFromTopicsState(pid)
 	}
 }
 
